@@ -353,6 +353,9 @@ def field_table(value: bytes) -> typing.Tuple[int, common.FieldTable]:
             offset += key_length
             consumed, result = embedded_value(value[offset:])
             offset += consumed
+            if offset > field_table_end:
+                raise ValueError(
+                    'Field table entry exceeds the declared table length')
             data[key] = result
         return field_table_end, data
     except TypeError:
